@@ -1071,7 +1071,7 @@ def tie_grid(ctx, broken, traces=None, scale=1.0):
         nv += run_level(ctx, acc, traces, what)
     if acc is not None:
         acc.finish(ctx.pid)
-    ok = ctx.oblige("monitors:grid", "monitor", nv == 0, f"{nv} violations of the grid clauses on the real code")
+    ctx.oblige("monitors:grid", "monitor", nv == 0, f"{nv} violations of the grid clauses on the real code")
     return nv
 
 
@@ -1105,9 +1105,6 @@ def replay_grid(ctx, rp):
             z = float(np.asarray(bb.BADS._eval_improvement_(Stub(), np.array([r["f_base"]]), np.array([r["f_new"]]), np.array([sb]), np.array([sn]), r["q"])).reshape(-1)[0])
         v = mon_impr(r["f_base"], r["f_new"], sb, sn, r["q"], z)
     elif kind == "object":
-        class C:      # minimal ctx
-            pass
-        before = len(ctx.violations)
         pr = r["problem"]
         b = build(pr)
         os_ = b.optim_state
